@@ -164,7 +164,14 @@ func (r *runner) runCase(c Case) Ev {
 		data = ev.Bytes(c.Data)
 	}
 	e := Ev{Op: c.Op, Alg: c.Alg, Key: key, Cnt: cnt, Bearer: c.Bearer, Dir: c.Dir, Data: ev.Ints(data), Nbits: c.Nbits, Out: []int{}, Prev: []int{}, Held: []int{}}
-	in := append([]byte{}, data...)
+	// the message / payload is a VIEW of a larger array (part of a receive buffer): 24 octets of 0xA5 lie behind it.  What the
+	// functions compute depends on the first len octets only, and nothing behind them is written.
+	big := make([]byte, len(data)+24)
+	copy(big, data)
+	for i := len(data); i < len(big); i++ {
+		big[i] = 0xA5
+	}
+	in := big[:len(data)]
 	var out []byte
 	var words []uint32 // the raw generators return words
 	var err error
@@ -213,6 +220,16 @@ func (r *runner) runCase(c Case) Ev {
 	if pi != nil {
 		e.Panic, e.Pfn, e.Plib = true, pi.Fn, pi.Lib
 		return e
+	}
+	for i := len(data); i < len(big); i++ {
+		if big[i] != 0xA5 { // written behind the caller's slice: reported as a wrong result of this call (the event's output is voided)
+			out = append([]byte{}, 0xBA, 0xD0, 0x0B, 0xEF, byte(i-len(data)))
+			if c.Op == "NASEncrypt" {
+				in = out
+			}
+			words = nil
+			break
+		}
 	}
 	e.Err = err != nil
 	if out != nil {
